@@ -30,6 +30,7 @@ class Log:
         self.writes = {}        # (array id, flat index) -> set of iteration ids
         self.reads = {}
         self.names = {}
+        self.keep = {}          # id -> array: logged arrays are kept alive so that ids are never reused
 
 
 class TrackNd(SymNd):
@@ -44,7 +45,10 @@ class TrackNd(SymNd):
             idxs = rnp.arange(self.size).reshape(self.shape)[k]
         except Exception:
             return
-        base = self if self.base is None else self.base
+        base = self
+        while getattr(base, "base", None) is not None:
+            base = base.base
+        lg.keep[id(base)] = base
         for ix in rnp.asarray(idxs).reshape(-1):
             d = lg.writes if kind == "w" else lg.reads
             d.setdefault((id(base), int(ix)), set()).add(lg.it)
@@ -138,17 +142,25 @@ def ob_race(W, backend, fam, mode, L, Kn, order):
     w = W.reals("w", L)
     om = W.omega("w")
     if not W.sym:
-        # replay: the compiled kernel with different thread counts must reproduce the serial result
+        # replay: a data race only shows under real concurrency -- stress the compiled kernel (many segments, all threads, several
+        # repetitions) and compare with the single-thread result
         import numba
-        base = K.run(W, backend, fam, mode, x, y, starts, L, w, om, order)
         ok = True
         if backend == "numba":
+            rng = rnp.random.default_rng(17)
+            Lb, Kb = 48, 6000
+            Nb = Lb + Kb
+            xb = rng.standard_normal(Nb); yb = rng.standard_normal(Nb) if mode == "csd" else xb
+            wb = rnp.hanning(Lb) + 0.1
+            sb = list(range(Kb))
             old = numba.get_num_threads()
             try:
-                for nt in (1, 2):
-                    numba.set_num_threads(min(nt, numba.config.NUMBA_NUM_THREADS))
-                    got = K.run(W, backend, fam, mode, x, y, starts, L, w, om, order)
-                    ok = ok and bool(rnp.allclose(got, base, rtol=1e-9, atol=1e-12))
+                numba.set_num_threads(1)
+                ref = K.run(W, backend, fam, mode, xb, yb, sb, Lb, wb, 0.7, order)
+                numba.set_num_threads(numba.config.NUMBA_NUM_THREADS)
+                for _ in range(6):
+                    got = K.run(W, backend, fam, mode, xb, yb, sb, Lb, wb, 0.7, order)
+                    ok = ok and bool(rnp.allclose(got, ref, rtol=1e-9, atol=1e-12))
             finally:
                 numba.set_num_threads(old)
         W.resolver = lambda name: ok
